@@ -787,6 +787,12 @@ where
 {
     let _ = ntex_util::spawn(async move {
         let io = IoBoxed::from(Io::new(io, scfg));
+        // "pre-buffered" connections: let the transport's read task fill the read buffer before
+        // the service is called (what happens behind TLS or any other asynchronous pipeline stage)
+        let pre = app.extra.borrow().get("prebuffer").is_some();
+        if pre {
+            crate::rt::rounds(6).await;
+        }
         let r = pl.call(io).await;
         app.done.set(true);
         app.log(Ev::ConnDone(match r {
